@@ -76,7 +76,14 @@ pub enum Op {
     QuiesceMark,
     /// From now on nothing is done for this hash: its RPCs are never applied,
     /// its parts never resolve, its pay commands never progress (C14).
-    Freeze { hash: u8 },
+    /// `soft`: only the outgoing payment stalls (parts and pay commands never
+    /// progress, so waits for them never return); every other RPC for the
+    /// hash is still served.
+    Freeze {
+        hash: u8,
+        #[serde(default)]
+        soft: bool,
+    },
     /// E2: command for the component under test (e.g. new_block / query height).
     Comp { cmd: String, arg: u64 },
     /// E2 watcher: from here on notifications are lost and polls are answered
